@@ -112,9 +112,14 @@ fn same_value(a: &str, b: &str) -> bool {
     }
 }
 
+/// without leading and trailing XML white space (U+00A0 and the like are characters, not white space)
+fn xtrim(s: &str) -> &str {
+    s.trim_matches(|c| matches!(c, ' ' | '\t' | '\n' | '\r'))
+}
+
 fn significant(nodes: &[Node]) -> Vec<&Node> {
     // (comments are not part of the property: it speaks of elements, attributes, text and tree position)
-    nodes.iter().filter(|n| !matches!(n, Node::Text(t) if t.trim().is_empty()) && !matches!(n, Node::Comment(_))).collect()
+    nodes.iter().filter(|n| !matches!(n, Node::Text(t) if xtrim(t).is_empty()) && !matches!(n, Node::Comment(_))).collect()
 }
 
 /// Compare an input element with the output element; `root` allows the synthesised root attributes.
@@ -131,7 +136,9 @@ fn same_tree(inp: &Element, out: &Element, root: bool, path: &str) -> Result<(),
     }
     for (k, v) in &out.attrs {
         if inp.attr(k).is_none() {
-            let allowed = root && matches!(k.as_str(), "version" | "xmlns" | "width" | "height" | "viewBox");
+            // (the documented reinterpretation: character-only content of a <text> is re-emitted as generated text, which carries svgdx's text class)
+            let generated_text = inp.name == "text" && k == "class" && v == "d-text" && inp.children.iter().all(|c| matches!(c, Node::Text(_) | Node::CData(_)));
+            let allowed = generated_text || (root && matches!(k.as_str(), "version" | "xmlns" | "width" | "height" | "viewBox"));
             if !allowed {
                 return Err(format!("{path}/<{}>: attribute {k}=\"{v}\" was added", inp.name));
             }
@@ -145,7 +152,7 @@ fn same_tree(inp: &Element, out: &Element, root: bool, path: &str) -> Result<(),
         match (a, b) {
             (Node::El(x), Node::El(y)) => same_tree(x, y, false, &format!("{path}/{}", inp.name))?,
             (Node::Text(x), Node::Text(y)) | (Node::CData(x), Node::CData(y)) | (Node::Comment(x), Node::Comment(y)) => {
-                if x.trim() != y.trim() {
+                if xtrim(x) != xtrim(y) {
                     return Err(format!("{path}/<{}>: character data {x:?} became {y:?}", inp.name));
                 }
             }
@@ -530,9 +537,48 @@ pub fn run(tier: Tier) -> i32 {
     ].iter().enumerate() {
         wdocs.push((format!("<svg>{e}</svg>"), format!("no-user-unit-box/{k}")));
     }
+    // (characters which look blank but are not XML white space are content)
+    for (k, e) in ["<text x=\"1\" y=\"2\">&#160;</text>", "<text x=\"1\" y=\"8\">&#x2003;</text>", "<text x=\"1\" y=\"2\"><tspan>&#160;</tspan></text>", "<rect width=\"5\" height=\"5\"><title>&#160;</title></rect>"].iter().enumerate() {
+        wdocs.push((format!("<svg>{e}</svg>"), format!("blank-characters-are-content/{k}")));
+    }
     let st = run_space(wdocs.len(), |i| check(&wdocs[i].0, "whitespace-content", &wdocs[i].1));
     rep.sample(json!({"leg": "whitespace-content", "doc": wdocs[wdocs.len() / 2].0}));
     rep.absorb("whitespace-content", st);
+
+    // ---- (f2) the root element's own style is kept when a style for the root is configured as well
+    let sdocs: Vec<(&str, &str)> = vec![
+        ("<svg style=\"background:red\"><rect width=\"5\" height=\"5\"/></svg>", "background:red"),
+        ("<svg style=\"fill: blue;\" width=\"10\" height=\"10\"><rect width=\"5\" height=\"5\"/></svg>", "fill: blue"),
+        ("<svg><rect width=\"5\" height=\"5\"/></svg>", ""),
+    ];
+    let st = run_space(sdocs.len(), |i| {
+        let (doc, own) = sdocs[i];
+        let mut cfg = Cfg::plain();
+        cfg.svg_style = Some("border:1px solid".to_string());
+        let out = run_str(doc, &cfg);
+        let mut problem = None;
+        match &out {
+            Outcome::Ok(o) => match xmlref::parse_tree(o, Mode::Document).ok().as_deref().and_then(xmlref::root).map(|r| r.attr("style").unwrap_or("").to_string()) {
+                None => problem = Some("no root element in the output".to_string()),
+                Some(style) => {
+                    for want in [own, "border:1px solid"] {
+                        if !style.contains(want) {
+                            problem = Some(format!("the root's style {style:?} does not hold {want:?}"));
+                        }
+                    }
+                }
+            },
+            other => problem = Some(other.brief()),
+        }
+        CaseResult {
+            case_hash: hash64(&doc),
+            nontrivial: problem.is_none(),
+            outcome_hash: hash64(&format!("{out:?}")),
+            executions: 1,
+            violation: problem.map(|p| Violation { clause: "root-style".into(), signature: "C04/root-style/own-style-replaced-by-configured".into(), case: json!({"leg": "root-style", "input": doc, "svg_style": "border:1px solid"}), detail: format!("{doc}\n{p}") }),
+        }
+    });
+    rep.absorb("root-style", st);
 
     // ---- (g) dx / dy (and x / y lists) on the other SVG 1.1 text-positioning elements
     let mut gdocs: Vec<(String, String)> = Vec::new();
